@@ -70,6 +70,20 @@ CLAIMED = {
              "The dangling-else shape (if-else whose then-branch ends in an else-less if) is excluded from generation because its text denotes another tree.",
         technique="Lean 4 proof (mutual structural induction with flag invariants) + model/implementation correspondence",
         design="§4 C06"),
+    "C07": dict(
+        text="Lean theorems over the complete operator x operand-type tables (13 primitives, pointers, everything else): a "
+             "binary operator or comparison is accepted only if both operand types are identical (`no_implicit_conversion`, "
+             "`mismatch_is_E551`); arithmetic only on integers and char8, bitwise/shift only on fixed-width unsigned integers, "
+             "negation only on signed integers, ordering never on pointers, nothing on aggregates (`op_classes`, by kernel "
+             "evaluation of the whole table); `as` only between distinct primitives and never into bool (`cast_classes`); every "
+             "violation is E550/E551 (`violation_rejected`). The tables are compared with the compiler exhaustively (10 binary "
+             "x 169, 6 comparisons x 169 + pointers, 2 unary x 13, 169 casts), and well-typed generated programs with one "
+             "type-breaking edit must be rejected with a typing code. Partial: the typer's inference is not modelled; "
+             "assignment / argument / return agreement is covered by the mutant programs only.",
+        note="Trusted: Lean kernel, transcription of resolver.rs tables (checked exhaustively cell by cell), the mutant generator. "
+             "char8 counts as arithmetic-capable and usize is excluded from bitwise/shift, as the tables have it.",
+        technique="Lean 4 proof (kernel-checked complete finite tables) + exhaustive matrix correspondence + typed mutants",
+        design="§4 C07"),
     "C09": dict(
         text="Lean theorems: the value the lexer computes for the standard base-2/10/16 numeral of every n < 2^128 is n "
              "(`decimal_roundtrip`, `hex_roundtrip`, `bin_roundtrip`, with the C14 lemmas for every `_` placement and suffix), "
